@@ -171,6 +171,9 @@ econf_newKeyFile_with_options(econf_file **result, const char *options) {
     }
 
     if (strncmp(o_opt, PARSING_DIRS, strlen(PARSING_DIRS)) == 0) {
+      /* an option given twice replaces the first one */
+      econf_freeArray((*result)->parse_dirs);
+      (*result)->parse_dirs_count = 0;
       (*result)->parse_dirs = malloc(sizeof(char *));
       if ((*result)->parse_dirs == NULL)
         return ECONF_NOMEM;
@@ -191,6 +194,8 @@ econf_newKeyFile_with_options(econf_file **result, const char *options) {
     }
 
     if (strncmp(o_opt, CONFIG_DIRS, strlen(CONFIG_DIRS)) == 0) {
+      econf_freeArray((*result)->conf_dirs);
+      (*result)->conf_count = 0;
       (*result)->conf_dirs = malloc(sizeof(char *));
       if ((*result)->conf_dirs == NULL)
         return ECONF_NOMEM;
@@ -210,6 +215,7 @@ econf_newKeyFile_with_options(econf_file **result, const char *options) {
     }
 
     if (strncmp(o_opt, ROOT_PREFIX, strlen(ROOT_PREFIX)) == 0) {
+      free((*result)->root_prefix);
       (*result)->root_prefix = strdup(o_opt + strlen(ROOT_PREFIX));
       continue;
     }
